@@ -197,6 +197,25 @@ pub fn run(ctx: &mut RunCtx) -> Result<(), Violation> {
             Err(e) => return Err(fail(format!("reloaded parameters do not compile the circuit: {:?}", e))),
         }
     }
+    // ---- larger parameter files (hundreds of points: whatever block-wise or pooled decoding exists
+    // or is introduced is then in play), reloaded under a seeded pool and schedule
+    if ctx.run % 40 == 13 && !ctx.spec.flag("nopp") {
+        let big = deploy::pp_with_degree(300 + w.usize(500));
+        let var = big.to_var_bytes();
+        for _ in 0..2 {
+            let env_b = ctx.env(&mut s);
+            let again = match guarded(|| under(&env_b, || PublicParameters::from_slice(&var))) {
+                Ok(Ok(p)) => p,
+                Ok(Err(e)) => return Err(fail(format!("public parameters of {} bytes do not decode from their own encoding: {:?}", var.len(), e))),
+                Err(p) => return Err(Violation::new("panic", format!("PublicParameters::from_slice panicked on a valid encoding: {}", p))),
+            };
+            ctx.st.fault("restart.parameters_large");
+            ctx.st.eval(sig ^ 0xc4 ^ digest(env_b.describe().as_bytes()), true);
+            if again.to_var_bytes() != var || again.to_raw_var_bytes() != big.to_raw_var_bytes() {
+                return Err(fail(format!("decode-then-encode changes the bytes of a {}-point parameter file under [{}]", (var.len() - 240) / 48, env_b.describe())));
+            }
+        }
+    }
     ctx.st.sample(J::obj(vec![
         ("run", J::U(ctx.run)),
         ("program", J::s(crate::program::describe(&sc.prog))),
